@@ -114,12 +114,12 @@ var skipInit = map[string]bool{
 	"internal/godebug": true, "internal/cpu": true, "reflect": true, "internal/abi": true,
 	"testing": true, "net": true, "crypto/rand": true, "internal/syscall/unix": true,
 	"google.golang.org/protobuf/reflect/protoregistry": true,
-	"google.golang.org/protobuf/internal/impl":        true,
-	"google.golang.org/protobuf/internal/filedesc":    true,
-	"github.com/sirupsen/logrus":                      true,
-	"internal/bytealg":                                true,
-	"sync":                                            true,
-	"sync/atomic":                                     true,
+	"google.golang.org/protobuf/internal/impl":         true,
+	"google.golang.org/protobuf/internal/filedesc":     true,
+	"github.com/sirupsen/logrus":                       true,
+	"internal/bytealg":                                 true,
+	"sync":                                             true,
+	"sync/atomic":                                      true,
 }
 
 func (i *interpreter) initPackage(pkg *ssa.Package) {
@@ -263,7 +263,7 @@ func (fr *frame) runDefer(d *deferred) {
 // without being observable by the target program.
 func isEnginePanic(r interface{}) bool {
 	switch r.(type) {
-	case pathEnd, exitPanic, taskKilled:
+	case pathEnd, exitPanic, taskKilled, deadlockPanic:
 		return true
 	case *runtime.TypeAssertionError:
 		return true
